@@ -125,7 +125,7 @@ def handle : List String → String
       let s := sets.foldl (fun s (p : Nat × Nat) => (setParameter s p.1 p.2).1) St.new
       -- `params.use_dictionary` is a public field: the harness pokes it after the set_parameter calls
       let s := { s with params := { s.params with useDict := natArg usedict = 1 } }
-      " ".intercalate (runCalls (natArg lbs) dict s {} text calls []).reverse
+      " ".intercalate (runCalls (natArg lbs) dict s (PSt.init (natArg cat == 1)) text calls []).reverse
   | _ => "bad-op"
 
 end BV.Drive.E2E
